@@ -19,7 +19,7 @@ def confirm(wt, patch, demo, name, prop, needs):
     sub = "internal/hmac" if "package hmac" in open(demo).read() else "."
     sh("git checkout -- . && rm -f zz_demo*_test.go zz_seed_demo_test.go internal/hmac/zz_demo*_test.go internal/hmac/zz_seed_demo_test.go", wt)
     patch, demo = os.path.abspath(patch), os.path.abspath(demo)
-    tmp_patch, tmp_demo = "/tmp/_seed_patch.diff", "/tmp/_seed_demo_test.go"
+    tmp_patch, tmp_demo = "/tmp/_seed_patch_%s.diff" % name, "/tmp/_seed_demo_%s_test.go" % name
     shutil.copy(patch, tmp_patch)
     shutil.copy(demo, tmp_demo)
     if os.path.isdir(os.path.join(wt, "out")):
